@@ -360,7 +360,8 @@ def run(out, base, argv):
         return None
     err = res.err.decode("utf-8", "replace")
     blocks = _Q.findall(err)
-    parsed = blocks[-1].strip() if blocks else None
+    # a diagnostic printed without a line end (an unusable root) is followed on its own line by the timing summary
+    parsed = re.sub(r"Search: \d+ms\s*(Compute: \d+ms)?", "", blocks[-1]).strip() if blocks else None
     return {"status": res.status, "sig": res.sig, "out": res.out, "parsed": parsed, "stderr": err[-300:],
             "k02": k02_in_lexems(err)}
 
